@@ -83,6 +83,7 @@ def lib():
     here = os.path.realpath(spake2.__file__)
     if not here.startswith(SRC + os.sep):
         raise HarnessError("spake2 imported from %s, wanted %s" % (here, SRC))
+    _cooperative_locks("spake2")
     L = _Lib()
     L.pkg = spake2
     L.sp = importlib.import_module("spake2.spake2")
@@ -96,6 +97,44 @@ def lib():
     L.cls = {"A": L.A, "B": L.B, "S": L.S}
     _LIB = L
     return L
+
+
+def _cooperative_locks(prefix):
+    """replace every lock object reachable from the globals / class attributes of the library's modules, and the lock factories
+    those modules see, by the scheduler's cooperative locks (see sched.CoopLock)"""
+    import threading, _thread
+    from . import sched
+    kinds = {type(threading.Lock()): sched.CoopLock, type(threading.RLock()): sched.CoopRLock}
+    fact = {threading.Lock: sched.CoopLock, threading.RLock: sched.CoopRLock, _thread.allocate_lock: sched.CoopLock}
+
+    def _proxy(real, **over):
+        class _P(types.ModuleType):
+            def __getattr__(self, k):
+                return getattr(real, k)
+        p = _P(real.__name__)
+        for k, v in over.items():
+            setattr(p, k, v)
+        return p
+    proxies = {id(threading): _proxy(threading, Lock=sched.CoopLock, RLock=sched.CoopRLock),
+               id(_thread): _proxy(_thread, allocate_lock=sched.CoopLock, RLock=sched.CoopRLock)}
+
+    def fix(ns, setter, depth=0):
+        for k, v in list(ns.items()):
+            if type(v) in kinds:
+                setter(k, kinds[type(v)]())
+            elif id(v) in proxies and isinstance(v, types.ModuleType):
+                setter(k, proxies[id(v)])
+            elif callable(v) and any(v is f for f in fact):
+                setter(k, [c for f, c in fact.items() if v is f][0])
+            elif depth == 0 and type(v).__module__.split(".")[0] == prefix.split(".")[0] and hasattr(v, "__dict__") and not isinstance(v, type):
+                fix(v.__dict__, lambda kk, vv, v=v: setattr(v, kk, vv), 1)
+    for name, m in list(sys.modules.items()):
+        if m is None or not (name == prefix or name.startswith(prefix + ".")):
+            continue
+        fix(m.__dict__, lambda k, v, m=m: setattr(m, k, v))
+        for c in list(m.__dict__.values()):
+            if isinstance(c, type) and getattr(c, "__module__", None) == name:
+                fix(dict(c.__dict__), lambda k, v, c=c: setattr(c, k, v))
 
 
 _FRESH = []
@@ -116,6 +155,7 @@ def fresh_lib():
     sys.modules[name] = m
     spec.loader.exec_module(m)
     _FRESH.append(name)
+    _cooperative_locks(name)
     L = _Lib()
     L.pkg = m
     L.sp = importlib.import_module(name + ".spake2")
@@ -179,12 +219,16 @@ class EntropyExhausted(Exception):
 class Script:
     """entropy_f whose every answer is decided by the harness; keeps a ledger of requests.
     answers: list of bytes (exact answers) or ints (encoded big-endian at the requested
-    width).  `repeat_last`: keep giving the last answer (bounded) instead of raising."""
+    width).  An entropy function must return exactly the number of bytes asked for: when the
+    library asks for a width other than the scripted answer's, the answer keeps its VALUE
+    (low-order bytes / zero-extended) and the mismatch is counted in `resized` (C11, which
+    owns the request sizes, reads the ledger)."""
 
     def __init__(self, answers, cap=64):
         self.answers = list(answers)
         self.calls = []
         self.cap = cap
+        self.resized = 0
 
     def __call__(self, n):
         i = len(self.calls)
@@ -194,6 +238,9 @@ class Script:
         a = self.answers[i]
         if isinstance(a, int):
             a = (a % (1 << (8 * n))).to_bytes(n, "big")
+        elif len(a) != n and isinstance(n, int) and n >= 0:
+            self.resized += 1
+            a = a[len(a) - n:] if len(a) > n else b"\x00" * (n - len(a)) + a
         return a
 
 
@@ -471,6 +518,7 @@ def load_toy_ed_module(Q, d, L):
     m = importlib.util.module_from_spec(spec)
     sys.modules[name] = m
     spec.loader.exec_module(m)
+    _cooperative_locks(name)
     need = ["Q", "L", "d", "I", "B", "Base", "Zero", "_zero_bytes", "Element", "_ZeroElement",
             "xform_affine_to_extended"]
     missing = [n for n in need if not hasattr(m, n)]
@@ -505,6 +553,7 @@ def load_toy_ed_group(Q, d, L):
     g = importlib.util.module_from_spec(spec)
     sys.modules[name] = g
     spec.loader.exec_module(g)
+    _cooperative_locks(name)
     if not hasattr(g, "ed25519_basic") or not hasattr(g, "Ed25519Group"):
         raise HarnessError("toy loader: ed25519_group layout changed")
     g.ed25519_basic = m
@@ -529,6 +578,19 @@ def ed_toy(Q, d, L, seeds=None):
 # -- shipped sets --------------------------------------------------------------
 
 SHIPPED = ["ParamsEd25519", "Params1024", "Params2048", "Params3072"]
+# unusual but valid integer groups (frozen in mc/ref/wide_groups.json, generated by tools/make_wide.py): a 200-bit order in a 320-bit
+# field, a 256-bit safe-prime group (p = 2q+1), and a 521-bit field with a 163-bit order (neither a whole number of bytes)
+WIDE = ["W320", "W256s", "W521"]
+_WIDE = None
+
+
+def wide_group(name):
+    global _WIDE
+    if _WIDE is None:
+        import json
+        _WIDE = json.load(open(os.path.join(os.path.dirname(os.path.abspath(__file__)), "ref", "wide_groups.json")))
+    d = _WIDE[name]
+    return int(d["p"]), int(d["q"]), int(d["g"])
 _REF_SHIPPED = {}
 
 
@@ -689,6 +751,8 @@ def get(name):
         inst = ed_toy(*cur[0])
     elif name in SHIPPED:
         inst = shipped(name)
+    elif name in WIDE:
+        inst = int_custom(*wide_group(name), name=name)
     else:
         raise HarnessError("unknown instance " + name)
     _CACHE[name] = inst
@@ -747,7 +811,7 @@ def hint(name):
 def lib_refuses_valid_group(name, why):
     """True when an integer toy instance - a valid (p, q, g) with reference-chosen, well-defined seeds, built only through the
     public IntegerGroup/_Params API - cannot be constructed because the library raises"""
-    return name in INT_TOYS and isinstance(why, str) and why.startswith("LIB:")
+    return (name in INT_TOYS or name in WIDE) and isinstance(why, str) and why.startswith("LIB:")
 
 
 class GroupOnly:
